@@ -86,3 +86,7 @@ Proof.
     (seqb (c_typ c) (B "doc")), (seqb (c_typ c) (B "licence")), (seqb (c_typ c) (B "license")), (seqb (c_typ c) (B "readme")),
     (seqb (c_typ c) (B "ghost")), (seqb (c_typ c) (B "debian changelog")); reflexivity.
 Qed.
+
+(* files.Contents.Less as translated is the planning model's order on entries *)
+Lemma src_content_less_is_model a b : src_content_less a b = content_ltb a b.
+Proof. reflexivity. Qed.
